@@ -27,7 +27,7 @@ def named_array(E, items, name):
     return a
 
 
-FORMS_1D = ["list", "tuple", "generator", "iterator", "nested_list", "array2d", "range_like", "named_list"]
+FORMS_1D = ["list", "tuple", "generator", "iterator", "iterator_rows", "generator_rows", "nested_list", "array2d", "range_like", "named_list"]
 FORMS_ND = ["list_of_rows", "tuple_of_rows", "list_of_tuples", "h2_lists", "h2_tuple_array", "h2_generators", "h2_iterator_map", "h3_lists", "h3_arrays", "fill_n_columns"]
 
 
@@ -72,6 +72,10 @@ class C17Generic1D(Harness):
             return (v for v in vals)
         if f == "iterator":
             return iter(list(vals))
+        if f == "iterator_rows":       # the iterator form of a multi-dimensional array: every item is a row
+            return iter([[vals[0]], [vals[1]]])
+        if f == "generator_rows":
+            return ((v,) for v in vals)
         if f == "nested_list":
             return [[vals[0]], [vals[1]]]
         if f == "array2d":
@@ -106,7 +110,7 @@ class C17Generic1D(Harness):
         vals = list(x["v"]) if p["form"] != "range_like" else [0.0, 1.0]
         if p.get("inf"):
             vals[1] = float("inf") if p["inf"] == "+inf" else float("-inf")
-        nested = p["form"] in ("nested_list", "array2d")
+        nested = p["form"] in ("nested_list", "array2d", "iterator_rows", "generator_rows")
         kw, kw_ref = {}, {}
         if p["weights"] != "none":
             ws = list(x["w"])
